@@ -309,11 +309,28 @@ class Mon:
         self.reach.stop()
 
     def run(self, text, vars_):
-        ctx = self.ctx.create_child_context()
+        self.turn = getattr(self, 'turn', 0) + 1
+        if not hasattr(self, 'worlds'):
+            from yaql import legacy as ylegacy
+            from yaql.language import conventions as yconv
+            # the string and regex functions mean the same in every flavour of context a host can set up
+            self.worlds = [('default', self.eng, self.ctx),
+                           ('delegates', yq.engine({'yaql.limitIterators': 10000}, allow_delegates=True), yaql.create_context(delegates=True)),
+                           ('legacy-functions', self.eng, ylegacy.create_context()),
+                           ('python-convention', self.eng, yaql.create_context(convention=yconv.PythonConvention())),
+                           ('partial-modules', self.eng, yaql.create_context(datetime=False, branching=False, yaqlized=False)),
+                           ('default', self.eng, self.ctx)]
+        wname, eng, base = self.worlds[self.turn % len(self.worlds)]
+        if wname == 'python-convention' and ('=>' in text or re.search(r'[a-z][A-Z]\w*\(', text)):
+            wname, eng, base = self.worlds[0]
+        if wname == 'legacy-functions' and ('=>' in text or '{' in text):
+            wname, eng, base = self.worlds[0]       # (`=>` builds tuples there)
+        self.rec.count('world.' + wname)
+        ctx = base.create_child_context()
         for k, v in vars_.items():
             ctx[k] = v
         try:
-            return ('value', self.eng(text).evaluate(context=ctx))
+            return ('value', eng(text).evaluate(context=ctx))
         except Exception as e:
             return ('error', type(e).__name__)
 
